@@ -6,7 +6,7 @@ change (listed in EXPECTED_TO_CHANGE with the reason).  A flag left set by a cal
 every later call computes (history dependence no single-call postcondition sees).
 
 mark():  {(module, name): token} for every module-level name of the loaded genjax modules bound to an immutable scalar
-         (bool / int / float / str / None) or to a list / dict / set (token = its length)
+         (bool / int / float / str / None): a mode flag, a counter
 check(): one clause per run: nothing changed except the allow-list
 """
 from __future__ import annotations
@@ -20,8 +20,8 @@ EXPECTED_TO_CHANGE = {}
 def _token(v):
     if v is None or isinstance(v, (bool, int, float, str)):
         return ("value", v)
-    if isinstance(v, (list, dict, set)):
-        return ("len", len(v))
+    # containers are NOT watched: a memo cache that grows is legitimate as long as it is keyed on everything the result
+    # depends on (that is what the history cases of the contracts and the native batteries check)
     return None
 
 
